@@ -15,7 +15,7 @@ package dkg
 //
 // Part two (zz_verif_c11tp_test.go): the same oracle with the PRODUCTION transport in the loop (real
 // bcast.Component and newFrostP2P on an in-memory host) under an exhaustively enumerated delivery alphabet
-// (duplicates, reorderings, late starters, concurrently repeated deliveries).
+// (duplicates, reorderings, late starters, concurrently repeated deliveries, cross-round delivery histories).
 
 import (
 	"context"
@@ -78,6 +78,9 @@ type c11Case struct {
 	Base    int      `json:"base_order,omitempty"`       // 0 = casts first, 1 = p2p first
 	Devs    []c11Dev `json:"deviations,omitempty"`       // applied in this order to the recipients' arrival lists
 	Choices []int    `json:"schedule_choices,omitempty"` // "conc" deviation: the interleaving (schedx choice sequence)
+	// Hist: family "hist" - the complete arrival list of one victim recipient, written out (a cross-round delivery
+	// history: a first-delivery order plus re-deliveries); the other recipients get the default delivery. No Devs then.
+	Hist *c11Hist `json:"history,omitempty"`
 }
 
 func (c c11Case) cfg() string { return fmt.Sprintf("n=%d,t=%d,v=%d", c.N, c.T, c.V) }
@@ -280,6 +283,8 @@ type c11Outcome struct {
 	earlyR2   int  // round 2 broadcasts handed to a recipient that was still in round 1
 	netOdd    int  // sends the harness network could not classify / saw twice
 	buffered  int  // messages handed to the callbacks of a node that had not yet started the ceremony
+	copiesR1  int  // hist: repeated deliveries handed over while the recipient was still in round 1
+	copiesR2  int  // hist: repeated deliveries handed over after the recipient had left round 1
 }
 
 // firstErr returns the root cause if there is one (not the "peer failed" echo seen by the other nodes).
@@ -791,10 +796,11 @@ type c11State struct {
 	attempts  map[string]int
 	sampled   int
 	// part two
-	thorough  bool
-	tpSampled int
-	ex        *schedx.Explorer
-	exDir     string
+	thorough    bool
+	tpSampled   int
+	histSampled int
+	ex          *schedx.Explorer
+	exDir       string
 }
 
 func (s *c11State) flush(cnt map[string]int) {
@@ -934,7 +940,7 @@ func TestVerifC11(t *testing.T) {
 	if part != "" {
 		r.NotExhaustive("VERIF_C11_PART=" + part + ": only that part was run")
 	}
-	if part != "2" {
+	if part == "" || part == "1" { // "2", "hist", "nohist": part two (all of it / only / all but the hist family)
 		c11PartOne(st, maxN, maxV)
 	}
 	if part != "1" && !r.Expired() {
